@@ -283,7 +283,7 @@ fn run(ctx: &Ctx, _mode: &str) -> Report {
     let mut report = Report::default();
     let counter = std::cell::Cell::new(0u64);
     let lat: std::cell::RefCell<Vec<f64>> = Default::default();
-    search(ctx, 1, ctx.cases(96, 2000), 20..80, &mut report, |choices, rep, _| {
+    search(ctx, 1, ctx.cases(240, 3000), 20..80, &mut report, |choices, rep, _| {
         let c = decode(choices);
         let n = counter.get();
         counter.set(n + 1);
